@@ -1,9 +1,10 @@
 (* C05 — each batch is flushed once, highest priority first; every item is answered.
    Statements only; proofs in proofs/MachineC05.v.  These are function-level theorems about the
    model's _select_batch_to_flush / _continue_with_batch / BatchBase.flush for EVERY scheduler
-   state, priority assignment and oracle (set iteration order).  The glue "no transition ever
-   resets a batch's done flag" is covered by the correspondence, not by a theorem (see DESIGN.md). *)
-From Asynq Require Import Machine proofs.MachineC05.
+   state, priority assignment and oracle (set iteration order), plus the trace-level theorem
+   C05_each_batch_flushed_at_most_once for EVERY program (stored handles and synchronous re-entry
+   included), service behaviour, oracle and fuel. *)
+From Asynq Require Import Machine proofs.MachineC05 proofs.MachineTrace.
 
 Theorem C05_select_greatest_priority : forall P s k s',
   select P s = (Some k, s') ->
@@ -48,3 +49,14 @@ Theorem C05_events_bracket_one_flush : forall P s,
   end.
 Proof. exact continue_with_batch_spec. Qed.
 Print Assumptions C05_events_bracket_one_flush.
+
+(* trace level, every program: in the event trace of any history of computations run by the machine,
+   the flush body of each batch (kind, index) occurs at most once *)
+Theorem C05_each_batch_flushed_at_most_once : forall P fuel ps k,
+  (count_flush k (snd (run_case P fuel ps)) <= 1)%nat.
+Proof. exact run_case_flush_at_most_once. Qed.
+Print Assumptions C05_each_batch_flushed_at_most_once.
+
+Theorem C05_flush_once_invariant_step : forall P c, FInv (c_st c) -> FInv (c_st (step P c)).
+Proof. exact FInv_step. Qed.
+Print Assumptions C05_flush_once_invariant_step.
